@@ -14,6 +14,10 @@ SCRATCH = os.environ.get("QBV_SELFTEST_DIR", "/tmp/qbv-selftest")
 
 
 def main():
+    import fcntl
+    os.makedirs(SCRATCH, exist_ok=True)
+    lock = open(os.path.join(SCRATCH, "lock"), "w")
+    fcntl.flock(lock, fcntl.LOCK_EX)
     pat = re.compile(sys.argv[1]) if len(sys.argv) > 1 and not sys.argv[1].startswith("--") else None
     allp = "--all-props" in sys.argv
     man = json.load(open(os.path.join(VERIF, "MANIFEST.json")))
